@@ -106,6 +106,50 @@ static void run_case(const JVal& in) {
         BigInt<256> r; memset(&r, 0xA5, sizeof r);
         embedded_pairing_wkdibe_random_zpstar((embedded_pairing_wkdibe_scalar_t*) &r, scripted_random);
         out.set("r", J(r)); end_script(out);
+    } else if (op == "capi.diff") {
+        // the same scripted stream is served to the C function and to the C++ operation it wraps; both outputs are logged byte for byte
+        std::string fn = in["fn"].s;
+        auto bytes_of = [](const void* p, size_t n) { return JVal::bytes((const uint8_t*) p, n); };
+        if (fn == "embedded_pairing_wkdibe_setup") {
+            int l = (int) in.num("l", 3); bool sigs = in.num("sigs", 0) != 0;
+            std::vector<embedded_pairing_wkdibe_g1_t> hc(l ? l : 1); std::vector<G1> hp(l ? l : 1);
+            embedded_pairing_wkdibe_params_t pc; embedded_pairing_wkdibe_masterkey_t mc; memset(&pc, 0, sizeof pc); memset(&mc, 0, sizeof mc); pc.h = hc.data();
+            embedded_pairing::wkdibe::Params pp; embedded_pairing::wkdibe::MasterKey mp; memset(&pp, 0, sizeof pp); memset(&mp, 0, sizeof mp); pp.h = hp.data();
+            begin_script(in); embedded_pairing_wkdibe_setup(&pc, &mc, l, sigs, scripted_random); size_t used_c = g_script_pos;
+            begin_script(in); embedded_pairing::wkdibe::setup(pp, mp, l, sigs, scripted_random);
+            pc.h = nullptr; pp.h = nullptr;       // the slot array pointers differ by construction
+            JVal c = JVal::arr(), d = JVal::arr();
+            c.push(bytes_of(&pc, sizeof pc)); c.push(bytes_of(&mc, sizeof mc)); c.push(bytes_of(hc.data(), l * sizeof(hc[0])));
+            d.push(bytes_of(&pp, sizeof pp)); d.push(bytes_of(&mp, sizeof mp)); d.push(bytes_of(hp.data(), l * sizeof(hp[0])));
+            out.set("c", c); out.set("cpp", d); out.set("used", (long long) used_c); out.set("used_cpp", (long long) g_script_pos);
+        } else if (fn == "embedded_pairing_lqibe_setup") {
+            embedded_pairing_lqibe_params_t pc; embedded_pairing_lqibe_masterkey_t mc; memset(&pc, 0, sizeof pc); memset(&mc, 0, sizeof mc);
+            embedded_pairing::lqibe::Params pp; embedded_pairing::lqibe::MasterKey mp; memset(&pp, 0, sizeof pp); memset(&mp, 0, sizeof mp);
+            begin_script(in); embedded_pairing_lqibe_setup(&pc, &mc, scripted_random); size_t used_c = g_script_pos;
+            begin_script(in); embedded_pairing::lqibe::setup(pp, mp, scripted_random);
+            JVal c = JVal::arr(), d = JVal::arr();
+            c.push(bytes_of(&pc, sizeof pc)); c.push(bytes_of(&mc, sizeof mc)); d.push(bytes_of(&pp, sizeof pp)); d.push(bytes_of(&mp, sizeof mp));
+            out.set("c", c); out.set("cpp", d); out.set("used", (long long) used_c); out.set("used_cpp", (long long) g_script_pos);
+        } else if (fn == "embedded_pairing_wkdibe_random_g1" || fn == "embedded_pairing_wkdibe_random_g2" || fn == "embedded_pairing_wkdibe_random_gt") {
+            JVal c = JVal::arr(), d = JVal::arr(); size_t used_c = 0;
+            if (fn == "embedded_pairing_wkdibe_random_g1") {
+                embedded_pairing_wkdibe_g1_t a; G1 b; memset(&a, 0, sizeof a); memset(&b, 0, sizeof b);
+                begin_script(in); embedded_pairing_wkdibe_random_g1(&a, scripted_random); used_c = g_script_pos;
+                begin_script(in); embedded_pairing::wkdibe::random_g1(b, scripted_random);
+                c.push(bytes_of(&a, sizeof a)); d.push(bytes_of(&b, sizeof b));
+            } else if (fn == "embedded_pairing_wkdibe_random_g2") {
+                embedded_pairing_wkdibe_g2_t a; G2 b; memset(&a, 0, sizeof a); memset(&b, 0, sizeof b);
+                begin_script(in); embedded_pairing_wkdibe_random_g2(&a, scripted_random); used_c = g_script_pos;
+                begin_script(in); embedded_pairing::wkdibe::random_g2(b, scripted_random);
+                c.push(bytes_of(&a, sizeof a)); d.push(bytes_of(&b, sizeof b));
+            } else {
+                embedded_pairing_wkdibe_gt_t a; Fq12 b; memset(&a, 0, sizeof a); memset(&b, 0, sizeof b);
+                begin_script(in); embedded_pairing_wkdibe_random_gt(&a, scripted_random); used_c = g_script_pos;
+                begin_script(in); embedded_pairing::wkdibe::random_gt(b, scripted_random);
+                c.push(bytes_of(&a, sizeof a)); d.push(bytes_of(&b, sizeof b));
+            }
+            out.set("c", c); out.set("cpp", d); out.set("used", (long long) used_c); out.set("used_cpp", (long long) g_script_pos);
+        } else out.set("skip", 1);
     } else if (op == "rand.fq") {
         begin_script(in);
         Fq r; memset(&r, 0xA5, sizeof r);
